@@ -8,6 +8,7 @@ integer semantics (Model/Ed25519FeOps.lean, Model/Ed25519Ge.lean), compared limb
 import DosModel.Model.Schnorr
 import DosModel.Gen.Ed25519Sc
 import DosModel.Model.Ed25519Ge
+import DosModel.Model.SchnorrHist
 
 open Dos Dos.Ed25519 Dos.Schnorr
 
@@ -198,6 +199,53 @@ def pt2Step (arg : Nat → String) : String :=
     | _, _ => "operand does not decode"
   | _ => "bad pt2 op"
 
+/-! ### hist: call histories (go/props/c20/hist.go) through Model/SchnorrHist.lean -/
+
+open Dos.SchnorrHist in
+/-- one token of a `hist` line as a step of the history model (`none`: not a step the model knows) -/
+def histTok (tok : String) : Option (Step Ed.Pt) :=
+  let f := tok.splitOn ":"
+  let n (k : Nat) : Nat := (f.getD k "").toNat?.getD 0
+  let hx (k : Nat) : Bytes := hex! (f.getD k "")
+  match f.getD 0 "" with
+  | "su" => some (.upd (.scSet (n 1) (leNat (hx 2))))
+  | "sb" => some (.upd (.scSet (n 1) (leNat (hx 2) % ell)))
+  | "sp" => some (.upd (.scSet (n 1) (nonceOf (hx 2))))
+  | "s1" => some (.upd (.scSet (n 1) 1))
+  | "s0" => some (.upd (.scSet (n 1) 0))
+  | "sa" => some (.upd (.scAdd (n 1) (n 2) (n 3)))
+  | "ss" => some (.upd (.scSub (n 1) (n 2) (n 3)))
+  | "sm" => some (.upd (.scMul (n 1) (n 2) (n 3)))
+  | "sn" => some (.upd (.scNeg (n 1) (n 2)))
+  | "sc" | "sk" => some (.upd (.scCopy (n 1) (n 2)))
+  | "pu" => (g.dec (hx 2)).map (fun P => .upd (.ptSet (n 1) P))
+  | "pb" => some (.upd (.ptMulBase (n 1) (n 2)))
+  | "pm" => some (.upd (.ptMul (n 1) (n 2) (n 3)))
+  | "pa" => some (.upd (.ptAdd (n 1) (n 2) (n 3)))
+  | "pc" | "pk" => some (.upd (.ptCopy (n 1) (n 2)))
+  | "bw" | "bn" => some (.upd (.bufWrite (n 1) (msgOf (f.getD 2 ""))))
+  | "bp" => some (.upd (.bufPoke (n 1) (n 2) (hx 3)))
+  | "S" => some (.call (.sign (n 1) (n 2) (nonceOf (hx 3))) (if f.getD 4 "-" == "-" then none else some (n 4)))
+  | "V" => some (.call (.verify (n 1) (n 2) (n 3)) none)
+  | _ => none
+
+open Dos.SchnorrHist in
+def showOutcome : Outcome → String
+  | .signature s => "sig=" ++ toHex s
+  | .verdict none => "ok"
+  | .verdict (some e) => "rej:" ++ e.name
+  | .badRef => "badref"
+
+open Dos.SchnorrHist in
+/-- the outcome list of the model `runHist` on the steps of the line -/
+def histStep (toks : List String) : String :=
+  match toks.mapM histTok with
+  | none => "bad hist step"
+  | some steps =>
+    match runHist g H {} steps with
+    | [] => "-"
+    | outs => " ".intercalate (outs.map showOutcome)
+
 def step (line : String) : String :=
   let w := words line
   let arg (i : Nat) : String := w.getD i ""
@@ -315,6 +363,7 @@ def step (line : String) : String :=
     | "equal" => s!"equal={hx 2 == hx 3} self=true"
     | "string" => String.join ((scMarshal (hx 2)).map hexOfByte)
     | _ => "bad apx op"
+  | "hist" => histStep (w.drop 2)
   | "fe" => feStep arg
   | "ge" => geStep arg
   | "pt2" => pt2Step arg
